@@ -25,6 +25,8 @@ class Mitm(scen.Relay):
         self.injected = 0
         self.after_any = 0
         self.chain = None       # running fragment chain: {"i", "n", "size", "seq", "downenc"}
+        self.edge_phase = seed % 4
+        self.edge_off = (seed // 4) % 13
 
     def _note_query(self, dg):
         if dg.data[:3] == proto.RAW_HDR:
@@ -118,8 +120,12 @@ class Mitm(scen.Relay):
         out = []
         what = p.get("what", "hostile")
         for i in range(p.get("n", 1)):
-            if what == "hostile" and i % 4 == 3:
-                tag, data = hostile.edge_reply(self.hrng, q, i // 4 + p.get("k", 0))
+            if what == "edge":
+                tag, data = hostile.edge_reply(self.hrng, q, p.get("size_idx", 0) + i)
+            elif what == "hostile" and i % 4 == self.edge_phase:
+                # (in a handshake step only the FIRST reply meets the query it was made for - the client asks again with a
+                #  new id - so the position of the buffer-edge replies rotates with the run's seed)
+                tag, data = hostile.edge_reply(self.hrng, q, i // 4 + self.edge_off)
             elif what == "hostile":
                 tag, data = hostile.client_reply(self.hrng, q, real=dg.data)
             elif what == "trunc":
